@@ -34,6 +34,17 @@ CHECKS["C19"] = ("model_checking",
                  "for every input length 0..16.",
                  "Trusted: TLC, Json module, the harness' op-to-method mapping. Bounded depth (uniformity beyond the bound is assumed, "
                  "mitigated by seeded simulated sequences of depth 12/16).", "4/C19")
+CHECKS["C15"] = ("model_checking",
+                 "TLC enumeration over Registry.tla (names x mask x case; 2x65 536 header words) replayed on the real lookups/packers; "
+                 "TLC trace judge; Go race detector for the concurrency clause; oracle-free 2^32 self-inverse sweep",
+                 "Registry.tla is an independent transcription of the OF 1.3.5 / OVS field table. TLC enumerates every name x mask x "
+                 "case variant as a lookup / mutate / lookup history, all 65 536 low halves and all 65 536 classes of the header word "
+                 "(the real unpacker is fed the specification's word), and judges every recorded result; the harness adds the "
+                 "self-inverse sweep over header words (all 2^32 in the thorough tier) and concurrent lookups with result mutation "
+                 "under the race detector, both reported as trace lines judged by TLC.",
+                 "Trusted: my transcription of the table (every disagreement is triaged against the code and the documents), TLC, "
+                 "Json module, the Go race detector (stress-sampled schedules, not exhaustive). tun_metadataN widths not asserted.",
+                 "4/C15")
 
 NOT_YET = {
 }
